@@ -1230,14 +1230,17 @@ static void union_initializer(Token **rest, Token *tok, Initializer *init) {
     return;
   }
 
+  // By default the first named member is initialized.
   init->mem = init->ty->members;
+  while (init->mem->next && init->mem->is_bitfield && !init->mem->name)
+    init->mem = init->mem->next;
 
   if (equal(tok, "{")) {
-    initializer2(&tok, tok->next, init->children[0]);
+    initializer2(&tok, tok->next, init->children[init->mem->idx]);
     consume(&tok, tok, ",");
     *rest = skip(tok, "}");
   } else {
-    initializer2(rest, tok, init->children[0]);
+    initializer2(rest, tok, init->children[init->mem->idx]);
   }
 }
 
